@@ -180,7 +180,7 @@ def _build_pipeline(c):
                      "flexible": abtem.FlexibleAnnularDetector(step_size=10),
                      "segmented": abtem.SegmentedDetector(inner=5, outer=30, nbins_radial=2, nbins_azimuthal=2)}[d])
     scan = {"none": None, "custom": abtem.CustomScan(np.array(c["points"])), "line": abtem.LineScan(start=(0, 0), end=(2, 2), gpts=3),
-            "grid": abtem.GridScan(start=(0, 0), end=(2, 2), gpts=2)}[c["scan"]]
+            "grid": abtem.GridScan(start=(0, 0), end=(2, 2), gpts=3)}[c["scan"]]
     bkw = dict(energy=100e3, extent=4.0, gpts=c["gpts"])
     if c.get("fail") == "grid-mismatch":
         bkw["gpts"] = c["gpts"] + 2  # the waves do not match the grid of the potential
